@@ -45,7 +45,11 @@ void run_readers(Ctx &c, Seq seq, size_t nops, const char *what) {
     std::vector<uint64_t> seeds(threads), alone_before(threads), alone_after(threads), together(threads);
     for (int t = 0; t < threads; ++t) seeds[t] = mix(c.rng.next(), t);
     ConcStats st;
-    for (int t = 0; t < threads; ++t) alone_before[t] = seq(seeds[t], nops, st, false);
+    // Every other case the readers are the FIRST to query the freshly built / freshly updated object: a query path that
+    // lazily initialises shared state on first use is only racy then (a sequential reference run beforehand would hide it).
+    const bool readers_first = c.case_idx % 4 < 2;
+    if (!readers_first)
+        for (int t = 0; t < threads; ++t) alone_before[t] = seq(seeds[t], nops, st, false);
     int reports_before = g_tsan_reports.load();
     {
         std::atomic<int> ready{0};
@@ -62,6 +66,9 @@ void run_readers(Ctx &c, Seq seq, size_t nops, const char *what) {
         for (auto &x : th) x.join();
     }
     for (int t = 0; t < threads; ++t) alone_after[t] = seq(seeds[t], nops, st, false);
+    if (readers_first) // the sequential reference is taken afterwards, twice
+        for (int t = 0; t < threads; ++t) alone_before[t] = seq(seeds[t], nops, st, false);
+    c.count(readers_first ? "rounds_readers_query_first" : "rounds_sequential_reference_first");
     set_affinity(0);
     int reports = g_tsan_reports.load() - reports_before;
     for (int t = 0; t < threads; ++t)
